@@ -234,6 +234,46 @@ fn run(case: &Case, out: &mut Out) {
                         s.delivered.len(), s.sent_good.len()));
                 }
             }
+            // the main process's loop: the REAL bin/src/command/sessions.rs extract_messages
+            "extract" => {
+                let s = st_.as_mut().unwrap();
+                let ms = sozu::command::sessions::extract_messages(&mut s.chan);
+                let mut t = vec![];
+                for m in &ms {
+                    let b = m.encode_to_vec();
+                    t.push(tb(&b));
+                    s.delivered.push(b);
+                }
+                t.push(ts("st"));
+                t.extend(st(&s.chan));
+                out.obs(&t);
+            }
+            "drain_check_x" => {
+                let s = st_.as_mut().unwrap();
+                let mut t = vec![];
+                for _ in 0..64 {
+                    let before = s.chan.front_buf.available_data() + unread(&s.peer_fd_probe());
+                    s.chan.handle_events(Ready::READABLE);
+                    let ms = sozu::command::sessions::extract_messages(&mut s.chan);
+                    let after = s.chan.front_buf.available_data() + unread(&s.peer_fd_probe());
+                    if ms.is_empty() && after == before {
+                        break;
+                    }
+                    for m in &ms {
+                        let b = m.encode_to_vec();
+                        t.push(tb(&b));
+                        s.delivered.push(b);
+                    }
+                }
+                t.push(ts("st"));
+                t.extend(st(&s.chan));
+                out.obs(&t);
+                if s.delivered.len() != s.sent_good.len() {
+                    out.viol("delivery-missing", &format!(
+                        "{} of {} well-formed messages delivered by extract_messages after the stream was fully drained",
+                        s.delivered.len(), s.sent_good.len()));
+                }
+            }
             other => panic!("unknown op {other}"),
         }
         // property oracle, evaluated on the implementation after every op
@@ -271,6 +311,19 @@ fn run(case: &Case, out: &mut Out) {
         if s.peer_got[..] != s.written[..s.peer_got.len().min(s.written.len())] || s.peer_got.len() > s.written.len() {
             out.viol("write-stream", "bytes received by the peer are not a prefix of the framed messages written");
         }
+    }
+}
+
+/// bytes sitting unread in the channel's socket (FIONREAD)
+fn unread(fd: &i32) -> usize {
+    let mut n: libc::c_int = 0;
+    unsafe { libc::ioctl(*fd, libc::FIONREAD, &mut n) };
+    n as usize
+}
+
+impl St {
+    fn peer_fd_probe(&self) -> i32 {
+        self.chan.fd()
     }
 }
 
